@@ -165,8 +165,9 @@ def run(tier: str, seed: int) -> Report:  # noqa: PLR0912, PLR0915
         "implementation is not flagged",
         "left open by the statement and accepted either way (counted in coverage.unspecified): rejecting expressions "
         "with reversed/empty parts, whitespace inside expressions, upper-case prefixes / underscores / sign in "
-        "literals, non-decimal notation for settings the scanners write in decimal, IPv6 zone identifiers, "
+        "literals, non-decimal notation for settings the scanners write in decimal, "
         "parameter maps lacking a mandatory setting",
+        "IPv6 zone identifiers (fe80::1%eth0) are part of the host: the DoIP discovery emits such URIs",
         "urllib / ipaddress of CPython 3.12 and pydantic as installed in /venv are part of the system under test",
     ]
     unspecified: dict[str, int] = {}
